@@ -288,6 +288,35 @@ def c03_fn(ctx, case):
             ctx.close(np.real(vb), np.real(va), what, rtol=1e-6, atol=1e-8, sig=sig)
 
 
+# ---- Yule-Walker with the unbiased lags of a short narrow-band record (the autocorrelation matrix may be indefinite) ---------
+def enum_unbiased(tier):
+    for N in (12, 15, 18, 24, 30):
+        for order in range(max(2, N // 3 - 1), N // 2 + 1):
+            for cplx in (False, True):
+                for j, f0 in enumerate((0.11, 0.23, 0.31)):
+                    x = {"kind": "tones", "n": N, "complex": cplx, "seed": 100 * N + order + j, "tones": [[f0, 1.0, 0.4 + j]],
+                         "noise": [1e-3, 0.05, 0.01][j]}
+                    for c in ({"mod": 10.0, "phase": 0.0}, {"mod": 0.01, "phase": math.pi if not cplx else 1.0}):
+                        yield {"fn": "aryule", "x": x, "q": {"order": order, "norm": "unbiased"}, "c": c}
+
+
+@sub("C03.unbiased", enum=enum_unbiased, exhaustive=True,
+     doc="aryule(norm='unbiased') on records of 12..30 samples holding one line, orders N/3..N/2 (the unbiased lags of such a record "
+         "need not be positive definite; the recursion then runs with allow_singularity): coefficients, reflection coefficients "
+         "and error scale as for any other record")
+def c03_unbiased(ctx, case):
+    x = gen.realise(case["x"])
+    k = np.atleast_1d(np.asarray(spectrum.aryule(x, case["q"]["order"], norm="unbiased")[2]))
+    gap = np.abs(1.0 - np.abs(k) ** 2)
+    if not np.all(np.isfinite(k)) or float(np.min(gap)) < 1e-2:
+        # a step of the recursion within 1e-2 of exact singularity (|k| = 1) divides by almost nothing: the later coefficients
+        # are then decided by rounding (observed: 6e-7 between x and 10 x on the unchanged code)
+        ctx.exclude("a reflection coefficient within 1e-2 of the unit circle")
+        return
+    ctx.cls("indefinite lags (some |k| > 1)" if float(np.max(np.abs(k))) > 1 else "positive definite lags")
+    c03_fn(ctx, case)
+
+
 # ---- Daniell's smoothed periodogram (class and function; not among the estimator rows) -------------------------------------
 @st.composite
 def daniell_case(draw):
